@@ -64,7 +64,7 @@ def binary_forms(a, b, full=True):
     out += [
         (f"({a}) < ({b}) <= ({a})", "CmpChain"), (f"({a})[{b}]", "SubVar"), (f"({a})({b})", "Call1"), (f"({a})({b}, k=({a}))", "CallMixed"),
         (f"({a}).m(({b}), k=({a}))", "MethodMixed"), (f"(({a}), ({b}))[0]", "Tup2Idx0"), (f"(({a}), ({b}))[1]", "Tup2Idx1"),
-        (f"(({a}), ({b}))[2]", "Tup2IdxOOB"), (f"(({a}), ({b}))[({a})]", "Tup2IdxVar"), (f"[({a}), ({b})][0]", "List2Idx"),
+        (f"(({a}), ({b}))[2]", "Tup2IdxOOB"), (f"(({a}), ({b}))[-1]", "Tup2IdxFromEnd"), (f"(({a}), ({b}))[-2]", "Tup2IdxFromEnd2"), (f"(({a}), ({b}))[-3]", "Tup2IdxFromEndOOB"), (f"(({a}), ({b}))[({a})]", "Tup2IdxVar"), (f"[({a}), ({b})][0]", "List2Idx"),
         (f"{{'a': ({a}), 'b': ({b})}}.a", "Dict2Attr"), (f"{{'a': ({a}), 'b': ({b})}}['b']", "Dict2Key"),
         (f"{{'a': ({a}), 'b': ({b})}}.c", "Dict2Absent"), (f"{{'a': ({a}), 'b': ({b})}}['c']", "Dict2AbsentKey"),
         (f"({a}) if ({b}) else ({a})", "IfExpT"), (f"({a}) if ({a}) else ({b})", "IfExpE"), (f"(({a}), ({b}))", "Tuple2"),
@@ -117,6 +117,8 @@ def kind(n):
         return "unknown"
     if isinstance(n, ast.BinOp):
         kl, kr = kind(n.left), kind(n.right)
+        if isinstance(n.op, ast.Mod) and kl == "str":
+            return "str"  # ('%d jets' % anything) is text whatever the right side is
         if "unknown" in (kl, kr):
             return "unknown"
         if kl in ("num", "bool") and kr in ("num", "bool"):
@@ -209,7 +211,9 @@ def refusal_classes(body):
             r.add("r1-constant")
         if isinstance(n, ast.Subscript) and isinstance(n.value, ast.Tuple):
             s = n.slice
-            if not (isinstance(s, ast.Constant) and type(s.value) in (int, bool) and 0 <= s.value < len(n.value.elts)):
+            if isinstance(s, ast.UnaryOp) and isinstance(s.op, ast.USub) and isinstance(s.operand, ast.Constant) and type(s.operand.value) is int:
+                s = ast.Constant(value=-s.operand.value)  # (t[-1] as python parses it: a constant index, counted from the end)
+            if not (isinstance(s, ast.Constant) and type(s.value) in (int, bool) and -len(n.value.elts) <= s.value < len(n.value.elts)):
                 r.add("r2-tuple-index")
         if isinstance(n, ast.Subscript) and isinstance(n.value, ast.Dict):
             keys = [k.value for k in n.value.keys if isinstance(k, ast.Constant)]
@@ -267,7 +271,7 @@ def has_called_lambda(body):
     return any(isinstance(n, ast.Call) and isinstance(n.func, ast.Lambda) for n in astx.walk_nodes(body))
 
 
-def judge(ctx, ds, opname, mode, text, tag, depth, supply):
+def judge(ctx, ds, opname, mode, text, tag, depth, supply, variant=""):
     """supply() performs the operator call and returns the stream."""
     lam_in = astx.parse_expr(text)
     body = lam_in.body
@@ -282,7 +286,7 @@ def judge(ctx, ds, opname, mode, text, tag, depth, supply):
         # internal error is not
         rc.add("r0-python-could-never-evaluate")
         ctx.count("python-could-never-evaluate")
-    key = f"{opname}|{mode}|{text}"
+    key = f"{opname}|{mode}|{variant}|{text}"
     ctx.case(key, nontrivial=depth >= 2)
     ctx.count(f"cell:{tag[0]}<-{'/'.join(tag[1:])}" if ctx.tier == "never" else "cells")
     witness = {"op": opname, "mode": mode, "text": text}
@@ -355,7 +359,7 @@ MUST_REFUSE = [
     ("incompatible-conditional", "1 if e.c else 'a'"), ("incompatible-conditional", "'a' if e.c else 2.5"), ("incompatible-conditional", "(e.x > 1) if e.c else 'a'"),
     ("incompatible-conditional", "(e.x > 1) if e.c else 2"), ("incompatible-conditional", "3.5 if e.c else (e.x > 1 and e.y < 2)"), ("incompatible-conditional", "e.f(1 if e.c else 'a')"),
     ("non-transportable-constant", "None"), ("non-transportable-constant", "e.f(None)"), ("non-transportable-constant", "..."), ("non-transportable-constant", "e.jets.Select(lambda j: (j.pt, None))"),
-    ("tuple-index", "(e.x, e.y)[2]"), ("tuple-index", "(e.x, e.y)[e.i]"), ("tuple-index", "(e.x, e.y)[-1]"), ("tuple-index", "e.f((e.x,)[1])"),
+    ("tuple-index", "(e.x, e.y)[2]"), ("tuple-index", "(e.x, e.y)[e.i]"), ("tuple-index", "(e.x, e.y)[-3]"), ("tuple-index", "e.f((e.x,)[1])"),
     ("absent-dict-key", "{'a': e.x}['{b}']"), ("absent-dict-key", "{'a': e.x}['{}']"), ("absent-dict-key", "{'a': e.x}['x{}y']"), ("absent-dict-key", "{'a': e.x}['{0}']"),
     ("absent-dict-key", "{'a': e.x}['%s']"), ("absent-dict-key", "{'a': {'b': 1}}['a']['{a}']"),
     ("absent-dict-key", "{'a': e.x}.b"), ("absent-dict-key", "{'a': e.x}['b']"), ("absent-dict-key", "{'a': e.x, 'c': 1}.b + 1"),
@@ -467,6 +471,15 @@ def must_refuse(ctx, ds):
                 ctx.violation(f"designed-refusal-missing:{cls}", f"{opname}({mode}): {text_op} must be refused with ValueError ({cls}) but was emitted as {astx.unparse(s.query_ast.args[1])[:160]}", {"op": opname, "mode": mode, "text": text_op, "must_refuse": cls})
 
 
+def _accepts_item_type(cls):
+    import inspect
+
+    try:
+        return "item_type" in inspect.signature(cls.__init__).parameters
+    except (TypeError, ValueError):
+        return False
+
+
 def shard_main(ctx):
     from func_adl import EventDataset
 
@@ -475,6 +488,17 @@ def shard_main(ctx):
             return a
 
     ds = DS()
+    # the other ways to say "a stream with no type information": item type None (documented as "None if not known"), and streams
+    # derived from one through Where / MetaData (they keep the item type)
+    import ast as _ast
+    from typing import Any as _Any
+    from func_adl import ObjectStream
+
+    untyped = [ds, DS(item_type=None) if _accepts_item_type(DS) else ds, ds.Where("lambda e: e.ok > 1"), ds.MetaData({"k": 1})]
+    try:
+        untyped.append(ObjectStream(ds.query_ast, None))
+    except Exception:
+        pass
     if ctx.shard == 0:
         must_refuse(ctx, ds)
         parameter_lists(ctx, ds)
@@ -498,6 +522,12 @@ def shard_main(ctx):
             continue
         cells.add(tag)
         text = f"lambda e: {t}"
+        if n % 5 == 2:
+            # the same expression on the other spellings of an untyped stream
+            for ui, u in enumerate(untyped[1:], 1):
+                for opname in ("Select", "SelectMany", "Where"):
+                    judge(ctx, u, opname, "string", text, tag, depth, lambda: getattr(u, opname)(text), variant=f"untyped#{ui}")
+            ctx.count("expressions-on-other-untyped-streams")
         for opname in ("Select", "SelectMany", "Where"):
             judge(ctx, ds, opname, "string", text, tag, depth, lambda: getattr(ds, opname)(text))
             amode = ("ast", "ast", "ast-no-positions", "ast-mixed-positions")[n % 4]
